@@ -394,10 +394,29 @@ def _receive_cer(ctx: Ctx, model, nc, P, K):
         ss = send_after(n)
         cl = [x for x in g.nodes if x.kind == "stmt" and any(A.dotted(t) == f"{conn}.state" for t in x.stores())
               and model.try_fold(x.ast.value, f.module) == CLOSING]
-        if not ss or not any(g.dominated(ss[0], [x]) and must_facts(g, at, x) >= {(origin, "in-expr", "self.peers", False)}
-                             for x in cl):
-            ctx.fail(cons + "#closing", g.loc(n), "the 3010 answer is not followed by closing: the "
-                     "connection is not put into PEER_CLOSING before the CEA is queued")
+        # "3010 followed by closing": after the CEA has been queued the connection is put into
+        # PEER_CLOSING and the node is woken, on every path to the return.  (CLOSING stored
+        # before the CEA is queued lets the I/O loop close the still empty connection first.)
+        wake = [x for x in g.nodes if x.kind == "stmt" and any(
+            A.call_name(c) == f"{conn}.demand_attention" for c in x.calls())]
+        okc = bool(ss)
+        if okc:
+            after_send = [d for l, d in ss[0].succ if l not in ("exc", "raise")]
+            cl_after = [x for x in cl if x in g.reach(after_send)]
+            okc = bool(cl_after) and g.exit not in g.reach(after_send, normal_blocked=cl_after) \
+                and g.exit not in g.reach([d for x in cl_after for l, d in x.succ if l not in ("exc", "raise")],
+                                          normal_blocked=wake)
+        if not okc:
+            ctx.fail(cons + "#closing", g.loc(n), "the 3010 answer is not followed by closing: after the "
+                     "CEA has been queued the connection is not put into PEER_CLOSING and the node "
+                     "woken (demand_attention) on every path")
+        early = [x for x in cl if ss and g.can_reach(x, ss[0]) and
+                 must_facts(g, at, x) >= {(origin, "in-expr", "self.peers", False)}]
+        ctx.inst(cons + "#closing-after-queueing")
+        if early:
+            ctx.fail(cons + "#closing-after-queueing", g.loc(early[0]), "the connection is put into "
+                     "PEER_CLOSING before the 3010 CEA is queued: the I/O loop closes a CLOSING "
+                     "connection that has nothing queued or buffered, so the CEA can be lost")
         if any(fl in g.reach([n], include_starts=False) for fl in flags + assigns):
             ctx.fail(cons + "#ready", g.loc(n), "an unknown peer's connection can become ready")
     if od:
@@ -489,12 +508,24 @@ def _receive_cer(ctx: Ctx, model, nc, P, K):
                 lambda a: True if (a.subject == rv and a.op == "truthy") else None]):
             ctx.fail(cons + "#common", g.loc(n), "2001 can be sent although no application is shared "
                      "and the peer is no relay")
-        if not flags or not g.dominated(n, flags) or not assigns or not g.dominated(flags[0], assigns):
-            ctx.fail(cons + "#ready", g.loc(n), "the 2001 CEA is sent without the connection having "
-                     "been assigned to its peer and flagged ready")
         ss = send_after(n)
         if not ss:
             ctx.fail(cons + "#send", g.loc(n), "the 2001 CEA is not sent")
+        # 2001 and ready go together: on every path from the 2001 store to the return the
+        # connection is assigned to its peer and then flagged ready ...
+        after_n = [d for l, d in n.succ if l not in ("exc", "raise")]
+        if not flags or not assigns or g.exit in g.reach(after_n, normal_blocked=flags) \
+                or not g.dominated(flags[0], assigns):
+            ctx.fail(cons + "#ready", g.loc(n), "the 2001 CEA is sent without the connection being "
+                     "assigned to its peer and flagged ready")
+        # ... and only after the CEA has been queued: the ready flag releases application
+        # threads waiting in wait_for_ready(), whose requests would overtake the CEA
+        ctx.inst(cons + "#cea-before-ready")
+        if ss and flags and not g.dominated(flags[0], ss):
+            ctx.fail(cons + "#cea-before-ready", g.loc(flags[0]), "the connection is flagged ready "
+                     "(application threads are released, the peer is offered for routing) before the "
+                     "2001 CEA has been queued: a request sent at once leaves in front of the CEA and "
+                     "is ignored by a peer that is still waiting for it")
         # negotiated ids recorded
         for kind in ("auth", "acct"):
             st = [x for x in g.nodes if x.kind == "stmt" and any(
@@ -515,6 +546,17 @@ def _receive_cer(ctx: Ctx, model, nc, P, K):
               and model.try_fold(x.ast.value, f.module) == CLOSING and (g.can_reach(n, x) or g.can_reach(x, n))]
         if not cl:
             ctx.fail(cons, g.loc(n), "a lost election does not put the connection into PEER_CLOSING")
+        ss_e = send_after(n)
+        wake_e = [x for x in g.nodes if x.kind == "stmt" and any(
+            A.call_name(c) == f"{conn}.demand_attention" for c in x.calls())]
+        if ss_e and any(g.can_reach(x, ss_e[0]) and g.can_reach(n, x) for x in cl):
+            ctx.fail(cons + "#closing-after-queueing", g.loc(n), "the connection is put into "
+                     "PEER_CLOSING before the election-lost CEA is queued: the I/O loop closes a "
+                     "CLOSING connection that has nothing queued or buffered, so the CEA can be lost")
+        elif ss_e and g.exit in g.reach([d for l, d in ss_e[0].succ if l not in ("exc", "raise")],
+                                        normal_blocked=wake_e):
+            ctx.fail(cons + "#closing", g.loc(n), "after the election-lost CEA has been queued the "
+                     "connection is not put into PEER_CLOSING with the node woken on every path")
         if any(fl in g.reach([n], include_starts=False) for fl in flags):
             ctx.fail(cons + "#ready", g.loc(n), "a connection that lost the election becomes ready")
     # every result code stored is one of the specified ones
